@@ -144,6 +144,46 @@ def gen_case(rng, refs, kinds_pool, max_clients=3, max_pkts=14, allow_big=True, 
     return [refs, [[p[0], p[1]] for p in pkts], clients, events, rng.choice([1, 1, 2, 3])]
 
 
+def gen_cycle_case(rng, refs, kinds, max_pkts=14, last_stops=None, how=None):
+    """repeated use cycles on one live stream: the clients attach ONE AFTER THE OTHER, each leaves (TEARDOWN or
+    dropped connection) before the next one attaches, so the stream's consumer count goes back to 0 between
+    them; the last one leaves too or is still attached when the stream ends.  Whatever is started on demand by
+    the first consumer and stopped by the last (the multicast proxy of a RECORD stream in particular) is
+    restarted in every cycle.  Sequential multicast members are allowed here (every cycle has its own first
+    member, which triggers the proxy's replay)."""
+    ncl = len(kinds)
+    kinds = list(kinds)
+    if last_stops is None:
+        last_stops = rng.random() < 0.5
+    for i, k in enumerate(kinds):      # an HTTP-FLV client cannot be stopped mid-stream by the harness
+        if k == HTTPFLV and (i < ncl - 1 or last_stops):
+            kinds[i] = WSFLV
+    pkts = gen_packets(rng, rng.randint(max(6, 2 * ncl), max(max_pkts, 2 * ncl + 2)), False)
+    n = len(pkts)
+    cuts = sorted(rng.randint(0, n) for _ in range(2 * ncl))
+    if rng.random() < 0.5:
+        cuts[0] = 0
+    events, clients, pos = [], [], 0
+    def advance(to):
+        nonlocal pos
+        if to > pos:
+            events.append([0, to - pos])
+            pos = to
+    for i, k in enumerate(kinds):
+        a, e = cuts[2 * i], cuts[2 * i + 1]
+        advance(a)
+        events.append([1, i])
+        stops = i < ncl - 1 or last_stops
+        if stops:
+            advance(e)
+            events.append([2, i, rng.choice([0, 1])])
+        end = e if stops else n
+        clients.append([k, gen_chmap(rng, k), replay(pkts, a, 0) + list(range(a, max(a, end)))])
+    advance(n)
+    events.append([3])
+    return [refs, [[p[0], p[1]] for p in pkts], clients, events, how if how is not None else rng.choice([1, 1, 2, 3])]
+
+
 def gen_pool_case(rng, kinds_pool=(WSP, WSP, WSP, WSRTSP, TCP)):
     """buffer independence: 2-3 viewers of one stream, all attached before the first packet; one of them is
     parked inside its data write while the others deliver the window's packets (and optionally a control
